@@ -184,6 +184,7 @@ class BfsResult:
 
 
 AUDIT_EVERY = int(os.environ.get("VERIF_AUDIT_EVERY", "0") or 0)
+AUDIT_MAX = int(os.environ.get("VERIF_AUDIT_MAX", "0") or 0)
 AUDIT_STATS = {"bfs_runs": 0, "merged_transitions": 0, "merge_audits": 0}
 
 
@@ -199,6 +200,8 @@ def bfs(factory, depth, ctx=None, workers=None, fork=True, max_states=None, obse
     if audit_every is None:
         audit_every = AUDIT_EVERY or (7 if os.environ.get("VERIF_TIER_HINT") == "thorough" else 25)
     res = BfsResult()
+    if AUDIT_MAX:
+        audit_max = AUDIT_MAX
     rep = {}            # seen key -> representative history
     audits = []
     merges = 0
